@@ -3,15 +3,26 @@
 package rules
 
 // C04 driver: chains of REAL authenticators (created by the real mechanism
-// factory from prototype configurations, optionally reconfigured on the rule
-// level, assembled by the real rule factory into a compositeSubjectCreator)
-// executed on generated requests.  JWKS, introspection and identity-info
-// endpoints are local httptest servers.  Observation: for every authenticator
-// whose Execute ran, its outcome (subject id or error kind), and the answer of
-// the composite.
+// factory from per-case prototype configurations, optionally reconfigured on the
+// rule level, assembled by the real rule factory — with or without a default
+// rule — into the rule's compositeSubjectCreator) executed on sequences of
+// generated requests that share one real in-memory cache.  A request enters
+// either directly (compositeSubjectCreator.Execute on a requestcontext), through
+// the complete decision service or through the complete Envoy ext_authz service
+// (real rule executor, ruleImpl.Execute, a header finalizer forwarding
+// Subject.ID).  JWKS, introspection, identity-info and metadata endpoints are
+// local servers whose behaviour (answer / close / 5xx / garbage / no answer in
+// time) is part of the case.
+//
+// Observation per request: for every authenticator whose Execute ran — its
+// mechanism id (position in the configured chain), what
+// IsFallbackOnErrorAllowed() said, whether its cache lookup hit, its outcome
+// (subject id or error kind) —, the answer of the composite, and for service
+// entries the status class and the forwarded subject.
 
 import (
 	"bytes"
+	"context"
 	"crypto/ecdsa"
 	"crypto/elliptic"
 	"crypto/rand"
@@ -25,25 +36,43 @@ import (
 	"net/http"
 	"net/http/httptest"
 	"net/url"
+	"reflect"
+	"strconv"
 	"strings"
 	"sync"
 	"testing"
 	"time"
+	"unsafe"
 
+	envoy_auth "github.com/envoyproxy/go-control-plane/envoy/service/auth/v3"
 	"github.com/go-jose/go-jose/v4"
 	"github.com/go-jose/go-jose/v4/jwt"
 	"github.com/rs/zerolog"
+	"google.golang.org/grpc"
+	"google.golang.org/grpc/credentials/insecure"
+	"google.golang.org/grpc/test/bufconn"
 
+	"github.com/dadrus/heimdall/internal/cache"
+	"github.com/dadrus/heimdall/internal/cache/memory"
 	"github.com/dadrus/heimdall/internal/config"
+	"github.com/dadrus/heimdall/internal/handler/decision"
+	"github.com/dadrus/heimdall/internal/handler/envoyextauth/grpcv3"
 	"github.com/dadrus/heimdall/internal/handler/requestcontext"
 	"github.com/dadrus/heimdall/internal/heimdall"
 	config2 "github.com/dadrus/heimdall/internal/rules/config"
 	"github.com/dadrus/heimdall/internal/rules/mechanisms"
 	"github.com/dadrus/heimdall/internal/rules/mechanisms/subject"
+	"github.com/dadrus/heimdall/internal/rules/rule"
 	"github.com/dadrus/heimdall/internal/zzverif/vf"
 )
 
-const c04Issuer = "https://c04-issuer.example"
+const (
+	c04Issuer      = "https://c04-issuer.example"
+	c04SubjectHdr  = "X-C04-Subject"
+	c04GarbageBody = "<<< not json >>>"
+	// time limit of every outgoing call of this process (http.DefaultTransport); the "slow" endpoints never answer within it
+	c04ResponseTimeout = 80 * time.Millisecond
+)
 
 // ---- environment: keys and remote endpoints ------------------------------------
 
@@ -54,16 +83,59 @@ type c04Env struct {
 	jwks    *httptest.Server
 	intro   *httptest.Server
 	ident   *httptest.Server
-	down    string // base URL nobody listens on
+	meta    *httptest.Server
 
 	mu       sync.Mutex
+	sw       string            // what the /sw paths do right now: up down status garbage slow
 	introTab map[string]string // token -> JSON answer of the introspection endpoint
+}
+
+// serve answers as the endpoint state says; `up` is the protocol answer
+func (e *c04Env) serve(state string, up http.HandlerFunc, w http.ResponseWriter, r *http.Request) {
+	if state == "sw" {
+		e.mu.Lock()
+		state = e.sw
+		e.mu.Unlock()
+	}
+
+	switch state {
+	case "up":
+		up(w, r)
+	case "status":
+		w.WriteHeader(http.StatusInternalServerError)
+	case "garbage":
+		w.Header().Set("Content-Type", "application/json")
+		w.Write([]byte(c04GarbageBody))
+	case "slow":
+		select {
+		case <-r.Context().Done():
+		case <-time.After(10 * c04ResponseTimeout):
+		}
+	case "down":
+		if hj, ok := w.(http.Hijacker); ok {
+			if conn, _, err := hj.Hijack(); err == nil {
+				conn.Close()
+
+				return
+			}
+		}
+
+		panic(http.ErrAbortHandler)
+	default:
+		w.WriteHeader(http.StatusNotFound)
+	}
+}
+
+func (e *c04Env) remote(up http.HandlerFunc) http.Handler {
+	return http.HandlerFunc(func(w http.ResponseWriter, r *http.Request) {
+		e.serve(strings.TrimPrefix(r.URL.Path, "/"), up, w, r)
+	})
 }
 
 func c04NewEnv(t *testing.T) *c04Env {
 	t.Helper()
 
-	env := &c04Env{introTab: map[string]string{}}
+	env := &c04Env{introTab: map[string]string{}, sw: "up"}
 
 	var err error
 
@@ -83,24 +155,12 @@ func c04NewEnv(t *testing.T) *c04Env {
 		{Key: &env.ec.PublicKey, KeyID: "k1", Algorithm: "ES256", Use: "sig"},
 	}})
 
-	remote := func(up http.HandlerFunc) http.Handler {
-		mux := http.NewServeMux()
-		mux.HandleFunc("/up", up)
-		mux.HandleFunc("/status", func(w http.ResponseWriter, _ *http.Request) { w.WriteHeader(http.StatusInternalServerError) })
-		mux.HandleFunc("/garbage", func(w http.ResponseWriter, _ *http.Request) {
-			w.Header().Set("Content-Type", "application/json")
-			w.Write([]byte("<<< not json >>>"))
-		})
-
-		return mux
-	}
-
-	env.jwks = httptest.NewServer(remote(func(w http.ResponseWriter, _ *http.Request) {
+	env.jwks = httptest.NewServer(env.remote(func(w http.ResponseWriter, _ *http.Request) {
 		w.Header().Set("Content-Type", "application/json")
 		w.Write(jwksBody)
 	}))
 
-	env.intro = httptest.NewServer(remote(func(w http.ResponseWriter, r *http.Request) {
+	env.intro = httptest.NewServer(env.remote(func(w http.ResponseWriter, r *http.Request) {
 		r.ParseForm()
 
 		env.mu.Lock()
@@ -116,7 +176,7 @@ func c04NewEnv(t *testing.T) *c04Env {
 	}))
 
 	// the session value encodes what the identity provider knows about it
-	env.ident = httptest.NewServer(remote(func(w http.ResponseWriter, r *http.Request) {
+	env.ident = httptest.NewServer(env.remote(func(w http.ResponseWriter, r *http.Request) {
 		v := r.Header.Get("X-Auth-Data")
 		w.Header().Set("Content-Type", "application/json")
 
@@ -132,13 +192,46 @@ func c04NewEnv(t *testing.T) *c04Env {
 		}
 	}))
 
-	l, err := net.Listen("tcp", "127.0.0.1:0")
-	if err != nil {
-		t.Fatal(err)
-	}
+	// metadata documents:
+	//   /<state>/<kind>/<remote>/.well-known/oauth-authorization-server      kind: jwks | intro | none
+	//   /tmpl/<kind>/<remote>/<issuer of the token>/.well-known/openid-configuration   (known issuers only)
+	env.meta = httptest.NewServer(http.HandlerFunc(func(w http.ResponseWriter, r *http.Request) {
+		p := strings.Split(strings.TrimPrefix(r.URL.Path, "/"), "/")
+		if len(p) < 3 {
+			w.WriteHeader(http.StatusNotFound)
 
-	env.down = "http://" + l.Addr().String()
-	l.Close()
+			return
+		}
+
+		state, kind, rem := p[0], p[1], p[2]
+
+		doc := func(w http.ResponseWriter, r *http.Request) {
+			issuer := "http://" + r.Host + strings.Split(r.URL.Path, "/.well-known/")[0]
+			d := map[string]any{"issuer": issuer}
+
+			switch kind {
+			case "jwks":
+				d["jwks_uri"] = env.jwks.URL + "/" + rem
+			case "intro":
+				d["introspection_endpoint"] = env.intro.URL + "/" + rem
+			}
+
+			w.Header().Set("Content-Type", "application/json")
+			json.NewEncoder(w).Encode(d)
+		}
+
+		if state == "tmpl" {
+			if !strings.Contains(r.URL.Path, strings.TrimPrefix(c04Issuer, "https://")) {
+				w.WriteHeader(http.StatusNotFound)
+
+				return
+			}
+
+			state = "up"
+		}
+
+		env.serve(state, doc, w, r)
+	}))
 
 	return env
 }
@@ -147,90 +240,24 @@ func (e *c04Env) close() {
 	e.jwks.Close()
 	e.intro.Close()
 	e.ident.Close()
+	e.meta.Close()
 }
 
-func (e *c04Env) remoteURL(base, rem string) string {
-	switch rem {
-	case "RUp":
-		return base + "/up"
-	case "RStatus":
-		return base + "/status"
-	case "RGarbage":
-		return base + "/garbage"
-	}
+var c04States = []string{"up", "down", "status", "garbage", "slow"} //nolint:gochecknoglobals
 
-	return e.down + "/up"
-}
-
-var c04Remotes = []string{"RUp", "RDown", "RStatus", "RGarbage"} //nolint:gochecknoglobals
-
-func c04FB(b bool) string {
-	if b {
-		return "fb"
-	}
-
-	return "nf"
-}
-
-// the mechanism catalogue: every type x remote state x prototype fallback flag
-func (e *c04Env) prototypes() []config.Mechanism {
-	var ps []config.Mechanism
-
-	ps = append(ps,
-		config.Mechanism{ID: "anon", Type: "anonymous"},
-		config.Mechanism{ID: "unauth", Type: "unauthorized"},
-	)
-
-	for _, fb := range []bool{false, true} {
-		ps = append(ps, config.Mechanism{ID: "basic_" + c04FB(fb), Type: "basic_auth", Config: config.MechanismConfig{
-			"user_id": "alice", "password": "secret", "allow_fallback_on_error": fb,
-		}})
-
-		for _, rem := range c04Remotes {
-			ps = append(ps, config.Mechanism{ID: "jwt_" + rem + "_" + c04FB(fb), Type: "jwt", Config: config.MechanismConfig{
-				"jwks_endpoint":           map[string]any{"url": e.remoteURL(e.jwks.URL, rem)},
-				"assertions":              map[string]any{"issuers": []any{c04Issuer}},
-				"allow_fallback_on_error": fb,
-			}})
-
-			ps = append(ps, config.Mechanism{ID: "intro_" + rem + "_" + c04FB(fb), Type: "oauth2_introspection", Config: config.MechanismConfig{
-				"introspection_endpoint":  map[string]any{"url": e.remoteURL(e.intro.URL, rem)},
-				"assertions":              map[string]any{"issuers": []any{c04Issuer}},
-				"allow_fallback_on_error": fb,
-			}})
-
-			for _, ls := range []bool{false, true} {
-				c := config.MechanismConfig{
-					"identity_info_endpoint": map[string]any{
-						"url": e.remoteURL(e.ident.URL, rem), "method": "GET",
-						"headers": map[string]any{"X-Auth-Data": "{{ .AuthenticationData }}"},
-					},
-					"authentication_data_source": []any{
-						map[string]any{"cookie": "session"},
-						map[string]any{"header": "X-Session"},
-					},
-					"subject":                 map[string]any{"id": "sub"},
-					"allow_fallback_on_error": fb,
-				}
-
-				if ls {
-					c["session_lifespan"] = map[string]any{"active": "active"}
-				}
-
-				ps = append(ps, config.Mechanism{ID: fmt.Sprintf("gen_%s_%t_%s", rem, ls, c04FB(fb)), Type: "generic", Config: c})
-			}
-		}
-	}
-
-	return ps
-}
+// states other than "up", "slow" being the rare (and expensive) one
+var c04Failing = []string{"down", "down", "down", "status", "status", "status", "garbage", "garbage", "garbage", "slow"} //nolint:gochecknoglobals
 
 // ---- generated inputs -------------------------------------------------------------
 
 type c04Authn struct {
 	Type     string `json:"type"`             // anonymous unauthorized basic_auth jwt oauth2_introspection generic
-	Remote   string `json:"remote,omitempty"` // RUp RDown RStatus RGarbage
+	Remote   string `json:"remote,omitempty"` // up down status garbage slow | sw (behaviour given per request)
 	Lifespan bool   `json:"lifespan,omitempty"`
+	Disc     string `json:"disc,omitempty"`   // "" (endpoint configured) | meta:<state> | meta:noep | meta:tmpl
+	Source   string `json:"source,omitempty"` // "" (default sources) | custom (header X-Token, query access_token)
+	Strict   string `json:"strict,omitempty"` // "" | proto | rule: audience svc-a and scope read asserted, configured where
+	TTL      string `json:"ttl,omitempty"`    // "" | proto:0s proto:5m rule:0s rule:5m : cache_ttl, configured where
 	ProtoFB  bool   `json:"proto_fb"`
 	Override string `json:"override"`          // "", "true", "false": rule-level allow_fallback_on_error
 	Subject  string `json:"subject,omitempty"` // anonymous: rule-level subject ("" = prototype default)
@@ -238,40 +265,39 @@ type c04Authn struct {
 	Pass     string `json:"pass,omitempty"`
 }
 
-func (a c04Authn) effectiveFB() bool {
-	switch a.Override {
-	case "true":
-		return true
-	case "false":
-		return false
-	}
-
-	return a.ProtoFB
-}
-
 type c04Token struct {
-	JWT    string `json:"jwt"`    // notjws:<variant> | keyunknown:<v> | badsig:<v> | assertfail:<v> | nosub | valid
-	Intro  string `json:"intro"`  // inactive assertfail nosub active
+	JWT    string `json:"jwt"`    // notjws:<v> noclaims keyunknown:<v> badsig:<v> assertfail:<v> narrow:<v> nosub valid | garbage (see c04Garbage)
+	Intro  string `json:"intro"`  // inactive assertfail:<v> narrow:<v> nosub active
 	Sub    string `json:"sub"`    // subject the jwt authenticator would extract
 	ISub   string `json:"isub"`   // subject the introspection endpoint reports
 	Serial string `json:"serial"` // the token string (filled in by the driver)
 }
 
 type c04Req struct {
-	Auth      string    `json:"auth"` // absent other:<variant> basic:<variant> bearer
-	BasicUser string    `json:"basic_user,omitempty"`
-	BasicPass string    `json:"basic_pass,omitempty"`
-	AuthTok   *c04Token `json:"auth_tok,omitempty"`
-	QueryTok  *c04Token `json:"query_tok,omitempty"`
-	Body      string    `json:"body"` // none:<variant> multi:<variant> tok
-	BodyTok   *c04Token `json:"body_tok,omitempty"`
-	Cookie    string    `json:"cookie,omitempty"` // session value: good-<sub> inactive-<sub> nosub-x unknown-x
-	XSess     string    `json:"xsess,omitempty"`
+	// absent | other:<variant> | basic:<variant> | bearer | bearer-empty | dup:<first>+<second> (two field lines)
+	Auth       string    `json:"auth"`
+	BasicUser  string    `json:"basic_user,omitempty"`
+	BasicPass  string    `json:"basic_pass,omitempty"`
+	AuthTok    *c04Token `json:"auth_tok,omitempty"`
+	XTok       *c04Token `json:"x_tok,omitempty"` // header X-Token
+	QueryTok   *c04Token `json:"query_tok,omitempty"`
+	QueryBlank bool      `json:"query_blank,omitempty"` // ?access_token=%20
+	Body       string    `json:"body"`                  // none:<variant> multi:<variant> tok tok-json tok-json-array1
+	BodyTok    *c04Token `json:"body_tok,omitempty"`
+	Cookie     string    `json:"cookie,omitempty"` // session value: good-<sub> inactive-<sub> nosub-x unknown-x
+	XSess      string    `json:"xsess,omitempty"`
+	Sw         string    `json:"sw"` // what the switchable endpoints do during this request
 }
 
 type c04Case struct {
-	Chain []c04Authn `json:"chain"`
-	Req   c04Req     `json:"req"`
+	Chain   []c04Authn `json:"chain"`
+	Default string     `json:"default,omitempty"` // "" | ignored (a default rule with other authenticators exists) | applies (the chain IS the default rule's)
+	Entry   string     `json:"entry"`             // direct | decision | envoy
+	Steps   []c04Req   `json:"steps"`
+}
+
+func (a c04Authn) overridesOther() bool {
+	return a.Strict == "rule" || strings.HasPrefix(a.TTL, "rule:") || a.Subject != "" || a.User != ""
 }
 
 var c04Subs = []string{"alice", "bob", "carol", "dave"} //nolint:gochecknoglobals
@@ -280,14 +306,18 @@ func c04GenToken(r *vf.Rand) *c04Token {
 	t := &c04Token{Sub: vf.Pick(r, c04Subs), ISub: vf.Pick(r, c04Subs)}
 
 	switch x := r.Intn(100); {
-	case x < 22:
+	case x < 18:
 		t.JWT = "notjws:" + vf.Pick(r, []string{"opaque", "dots", "algnone", "badalg", "empty-sig-part", "four-parts"})
-	case x < 34:
+	case x < 21:
+		t.JWT = "noclaims"
+	case x < 31:
 		t.JWT = "keyunknown:" + vf.Pick(r, []string{"kid", "nokid-otherkey"})
-	case x < 50:
+	case x < 45:
 		t.JWT = "badsig:" + vf.Pick(r, []string{"flip", "otherkey", "rsa-ps256", "hs256-pub"})
-	case x < 64:
+	case x < 57:
 		t.JWT = "assertfail:" + vf.Pick(r, []string{"issuer", "expired", "notyet"})
+	case x < 66:
+		t.JWT = "narrow:" + vf.Pick(r, []string{"aud", "scope", "noaud"})
 	case x < 72:
 		t.JWT = "nosub"
 	default:
@@ -295,11 +325,13 @@ func c04GenToken(r *vf.Rand) *c04Token {
 	}
 
 	switch x := r.Intn(100); {
-	case x < 30:
+	case x < 26:
 		t.Intro = "inactive"
-	case x < 45:
-		t.Intro = "assertfail"
-	case x < 55:
+	case x < 38:
+		t.Intro = "assertfail:" + vf.Pick(r, []string{"issuer", "expired"})
+	case x < 48:
+		t.Intro = "narrow:" + vf.Pick(r, []string{"aud", "scope"})
+	case x < 56:
 		t.Intro = "nosub"
 	default:
 		t.Intro = "active"
@@ -321,17 +353,24 @@ func c04GenSession(r *vf.Rand) string {
 	return "unknown-x"
 }
 
-func c04GenReq(r *vf.Rand) c04Req {
-	q := c04Req{Auth: "absent", Body: "none:nobody"}
+// pool: tokens used earlier in the same case (a later request may present the same token again)
+func c04GenReq(r *vf.Rand, pool *[]*c04Token) c04Req {
+	q := c04Req{Auth: "absent", Body: "none:nobody", Sw: "up"}
 
-	switch x := r.Intn(100); {
-	case x < 22:
-	case x < 34:
-		q.Auth = "other:" + vf.Pick(r, []string{"digest", "lower-basic", "lower-bearer", "bearer-nospace", "basic-nospace", "token"})
-	case x < 62:
-		q.Auth = "basic:" + vf.Pick(r, []string{"badb64", "nocolon", "threeparts", "pair", "pair", "pair", "pair", "emptypayload"})
+	tok := func() *c04Token {
+		if len(*pool) != 0 && r.Chance(45) {
+			return vf.Pick(r, *pool)
+		}
+
+		t := c04GenToken(r)
+		*pool = append(*pool, t)
+
+		return t
+	}
+
+	basic := func() {
 		q.BasicUser = vf.Pick(r, []string{"alice", "alice", "bob", "mallory", ""})
-		q.BasicPass = vf.Pick(r, []string{"secret", "secret", "hunter2", "wrong", ""})
+		q.BasicPass = vf.Pick(r, []string{"secret", "secret", "hunter2", "wrong", "", "se:cret"})
 
 		if r.Chance(40) { // a pair some configured basic_auth instance accepts
 			if r.Chance(70) {
@@ -340,13 +379,36 @@ func c04GenReq(r *vf.Rand) c04Req {
 				q.BasicUser, q.BasicPass = "bob", "hunter2"
 			}
 		}
+	}
+
+	switch x := r.Intn(100); {
+	case x < 20:
+	case x < 31:
+		q.Auth = "other:" + vf.Pick(r, []string{"digest", "lower-basic", "lower-bearer", "bearer-nospace", "basic-nospace", "token"})
+	case x < 56:
+		q.Auth = "basic:" + vf.Pick(r, []string{"badb64", "nocolon", "threeparts", "pair", "pair", "pair", "pair", "emptypayload"})
+		basic()
+	case x < 60:
+		q.Auth = "bearer-empty"
+	case x < 68:
+		q.Auth = "dup:" + vf.Pick(r, []string{"basic+digest", "digest+basic", "bearer+basic", "digest+bearer", "basic+basic"})
+		basic()
+		q.AuthTok = tok()
 	default:
 		q.Auth = "bearer"
-		q.AuthTok = c04GenToken(r)
+		q.AuthTok = tok()
+	}
+
+	if r.Chance(15) {
+		q.XTok = tok()
 	}
 
 	if r.Chance(22) {
-		q.QueryTok = c04GenToken(r)
+		if r.Chance(12) {
+			q.QueryBlank = true
+		} else {
+			q.QueryTok = tok()
+		}
 	}
 
 	switch x := r.Intn(100); {
@@ -356,12 +418,8 @@ func c04GenReq(r *vf.Rand) c04Req {
 	case x < 80:
 		q.Body = "multi:" + vf.Pick(r, []string{"form-twice", "json-number", "json-two-element-array"})
 	default:
-		q.Body = "tok"
-		if r.Bool() {
-			q.Body = "tok-json"
-		}
-
-		q.BodyTok = c04GenToken(r)
+		q.Body = vf.Pick(r, []string{"tok", "tok", "tok-json", "tok-json", "tok-json-array1"})
+		q.BodyTok = tok()
 	}
 
 	if r.Chance(35) {
@@ -370,6 +428,10 @@ func c04GenReq(r *vf.Rand) c04Req {
 
 	if r.Chance(25) {
 		q.XSess = c04GenSession(r)
+	}
+
+	if r.Chance(40) {
+		q.Sw = vf.Pick(r, c04Failing)
 	}
 
 	return q
@@ -397,13 +459,15 @@ func c04GenAuthn(r *vf.Rand) c04Authn {
 		}
 
 		return a
-	case x < 40:
+	case x < 38:
 		a.Type = "basic_auth"
 
 		if r.Chance(25) {
 			a.User, a.Pass = "bob", "hunter2"
+		} else if r.Chance(8) {
+			a.User, a.Pass = "alice", "se:cret" // a password with a colon can never be presented
 		}
-	case x < 62:
+	case x < 61:
 		a.Type = "jwt"
 	case x < 82:
 		a.Type = "oauth2_introspection"
@@ -413,9 +477,52 @@ func c04GenAuthn(r *vf.Rand) c04Authn {
 	}
 
 	if a.Type != "basic_auth" {
-		a.Remote = "RUp"
-		if r.Chance(22) {
-			a.Remote = vf.Pick(r, c04Remotes[1:])
+		a.Remote = "up"
+
+		switch x := r.Intn(100); {
+		case x < 18:
+			a.Remote = vf.Pick(r, []string{"down", "status", "garbage"})
+		case x < 20:
+			a.Remote = "slow"
+		case x < 45:
+			a.Remote = "sw"
+		}
+	}
+
+	if a.Type == "jwt" || a.Type == "oauth2_introspection" {
+		switch x := r.Intn(100); {
+		case x < 10:
+			a.Disc = "meta:up"
+		case x < 17:
+			a.Disc = "meta:" + vf.Pick(r, []string{"down", "down", "status", "status", "status", "garbage", "garbage", "slow"})
+		case x < 20:
+			a.Disc = "meta:noep"
+		case x < 30:
+			a.Disc = "meta:tmpl"
+		}
+
+		if r.Chance(20) {
+			a.Source = "custom"
+		}
+
+		switch x := r.Intn(100); {
+		case x < 15:
+			a.Strict = "proto"
+		case x < 32:
+			a.Strict = "rule"
+		}
+	}
+
+	if a.Type != "basic_auth" {
+		switch x := r.Intn(100); {
+		case x < 8:
+			a.TTL = "proto:0s"
+		case x < 20:
+			a.TTL = "proto:5m"
+		case x < 28:
+			a.TTL = "rule:0s"
+		case x < 40:
+			a.TTL = "rule:5m"
 		}
 	}
 
@@ -430,7 +537,7 @@ func c04GenAuthn(r *vf.Rand) c04Authn {
 }
 
 func c04Gen(r *vf.Rand) c04Case {
-	c := c04Case{Req: c04GenReq(r)}
+	var c c04Case
 
 	n := 1 + r.Intn(4)
 	if r.Chance(10) {
@@ -451,6 +558,49 @@ func c04Gen(r *vf.Rand) c04Case {
 		c.Chain = append(c.Chain, c04Authn{Type: "anonymous"})
 	}
 
+	switch x := r.Intn(100); {
+	case x < 40:
+		c.Entry = "direct"
+	case x < 70:
+		c.Entry = "decision"
+	default:
+		c.Entry = "envoy"
+	}
+
+	switch x := r.Intn(100); {
+	case x < 15:
+		c.Default = "ignored"
+	case x < 25:
+		c.Default = "applies"
+	}
+
+	steps := 1
+	switch x := r.Intn(100); {
+	case x < 15:
+		steps = 3
+	case x < 45:
+		steps = 2
+	}
+
+	var pool []*c04Token
+
+	for i := 0; i < steps; i++ {
+		if i > 0 && r.Chance(65) { // the same request again, possibly with the switchable endpoints in another state
+			q := c.Steps[i-1]
+			q.Sw = "up"
+
+			if r.Chance(60) {
+				q.Sw = vf.Pick(r, c04Failing)
+			}
+
+			c.Steps = append(c.Steps, q)
+
+			continue
+		}
+
+		c.Steps = append(c.Steps, c04GenReq(r, &pool))
+	}
+
 	return c
 }
 
@@ -462,7 +612,7 @@ func c04B64(v any) string {
 	return base64.RawURLEncoding.EncodeToString(b)
 }
 
-func (e *c04Env) sign(alg jose.SignatureAlgorithm, key any, kid string, claims map[string]any) string {
+func (e *c04Env) signer(alg jose.SignatureAlgorithm, key any, kid string) jose.Signer {
 	opts := (&jose.SignerOptions{}).WithType("JWT")
 
 	signer, err := jose.NewSigner(jose.SigningKey{Algorithm: alg, Key: jose.JSONWebKey{Key: key, KeyID: kid}}, opts)
@@ -470,7 +620,11 @@ func (e *c04Env) sign(alg jose.SignatureAlgorithm, key any, kid string, claims m
 		panic(err)
 	}
 
-	s, err := jwt.Signed(signer).Claims(claims).Serialize()
+	return signer
+}
+
+func (e *c04Env) sign(alg jose.SignatureAlgorithm, key any, kid string, claims map[string]any) string {
+	s, err := jwt.Signed(e.signer(alg, key, kid)).Claims(claims).Serialize()
 	if err != nil {
 		panic(err)
 	}
@@ -482,12 +636,14 @@ func (e *c04Env) serialize(t *c04Token, r *vf.Rand) {
 	now := time.Now().Unix()
 	claims := map[string]any{
 		"iss": c04Issuer, "sub": t.Sub, "iat": now - 5, "nbf": now - 5, "exp": now + 3600,
-		"jti": fmt.Sprintf("%x", r.U64()),
+		"jti": fmt.Sprintf("%x", r.U64()), "aud": []string{"svc-a", "svc-x"}, "scope": "read write",
 	}
 
 	kind, variant, _ := strings.Cut(t.JWT, ":")
 
 	switch kind {
+	case "garbage":
+		return // the serial is what the request construction made of it
 	case "notjws":
 		switch variant {
 		case "opaque":
@@ -504,6 +660,13 @@ func (e *c04Env) serialize(t *c04Token, r *vf.Rand) {
 		default:
 			t.Serial = e.sign(jose.ES256, e.ec, "k1", claims) + ".extra"
 		}
+	case "noclaims": // a correctly signed JWS whose payload is a JSON array
+		obj, err := e.signer(jose.ES256, e.ec, "k1").Sign([]byte(fmt.Sprintf(`["not","an","object","%x"]`, r.U64())))
+		if err != nil {
+			panic(err)
+		}
+
+		t.Serial, _ = obj.CompactSerialize()
 	case "keyunknown":
 		if variant == "kid" {
 			t.Serial = e.sign(jose.ES256, e.ec, "k-unknown", claims)
@@ -540,6 +703,17 @@ func (e *c04Env) serialize(t *c04Token, r *vf.Rand) {
 		}
 
 		t.Serial = e.sign(jose.ES256, e.ec, "k1", claims)
+	case "narrow": // fine unless audience svc-a and scope read are asserted
+		switch variant {
+		case "aud":
+			claims["aud"] = []string{"svc-b"}
+		case "scope":
+			claims["scope"] = "write"
+		default:
+			delete(claims, "aud")
+		}
+
+		t.Serial = e.sign(jose.ES256, e.ec, "k1", claims)
 	case "nosub":
 		delete(claims, "sub")
 		t.Serial = e.sign(jose.ES256, e.ec, "k1", claims)
@@ -552,43 +726,71 @@ func (e *c04Env) serialize(t *c04Token, r *vf.Rand) {
 		t.Serial = e.sign(jose.ES256, e.ec, kid, claims)
 	}
 
-	var ans string
+	ans := map[string]any{"active": true, "sub": t.ISub, "iss": c04Issuer, "exp": now + 3600, "aud": []string{"svc-a"}, "scope": "read write"}
 
-	switch t.Intro {
+	kind, variant, _ = strings.Cut(t.Intro, ":")
+
+	switch kind {
 	case "inactive":
-		ans = `{"active":false,"sub":"` + t.ISub + `","iss":"` + c04Issuer + `"}`
+		ans["active"] = false
 	case "assertfail":
-		ans = vf.Pick(r, []string{
-			`{"active":true,"sub":"` + t.ISub + `","iss":"https://evil.example"}`,
-			fmt.Sprintf(`{"active":true,"sub":%q,"iss":%q,"exp":%d}`, t.ISub, c04Issuer, now-1000),
-		})
+		if variant == "issuer" {
+			ans["iss"] = "https://evil.example"
+		} else {
+			ans["exp"] = now - 1000
+		}
+	case "narrow":
+		if variant == "aud" {
+			ans["aud"] = []string{"svc-b"}
+		} else {
+			ans["scope"] = "write"
+		}
 	case "nosub":
-		ans = `{"active":true,"iss":"` + c04Issuer + `"}`
-	default:
-		ans = fmt.Sprintf(`{"active":true,"sub":%q,"iss":%q,"exp":%d}`, t.ISub, c04Issuer, now+3600)
+		delete(ans, "sub")
 	}
 
+	b, _ := json.Marshal(ans)
+
 	e.mu.Lock()
-	e.introTab[t.Serial] = ans
+	e.introTab[t.Serial] = string(b)
 	e.mu.Unlock()
 }
 
-func (e *c04Env) request(q *c04Req, r *vf.Rand) *http.Request {
-	for _, t := range []*c04Token{q.AuthTok, q.QueryTok, q.BodyTok} {
+// a token string no endpoint knows and no parser accepts (what duplicate header lines, blanks etc. leave)
+func c04Garbage(serial string) *c04Token {
+	return &c04Token{JWT: "garbage", Intro: "inactive", Serial: serial}
+}
+
+// c04Wire is the request as the three entries need it
+type c04Wire struct {
+	target string              // path?query
+	query  string              // raw query
+	header map[string][]string // canonical name -> field lines
+	body   []byte
+	method string
+}
+
+func (e *c04Env) wire(q *c04Req, r *vf.Rand) c04Wire {
+	for _, t := range []*c04Token{q.AuthTok, q.XTok, q.QueryTok, q.BodyTok} {
 		if t != nil && t.Serial == "" {
 			e.serialize(t, r)
 		}
 	}
 
-	target := "http://heimdall.local/resource"
+	w := c04Wire{header: map[string][]string{}, method: http.MethodGet}
+
 	if q.QueryTok != nil {
-		target += "?access_token=" + url.QueryEscape(q.QueryTok.Serial)
+		w.query = "access_token=" + url.QueryEscape(q.QueryTok.Serial)
+	} else if q.QueryBlank {
+		w.query = "access_token=%20"
 	}
 
-	var (
-		body  []byte
-		ctype string
-	)
+	w.target = "/resource"
+	if w.query != "" {
+		w.target += "?" + w.query
+	}
+
+	var ctype string
 
 	kind, variant, _ := strings.Cut(q.Body, ":")
 
@@ -596,175 +798,363 @@ func (e *c04Env) request(q *c04Req, r *vf.Rand) *http.Request {
 	case "none":
 		switch variant {
 		case "textplain":
-			body, ctype = []byte("access_token=abc"), "text/plain"
+			w.body, ctype = []byte("access_token=abc"), "text/plain"
 		case "json-noparam":
-			body, ctype = []byte(`{"other":"x"}`), "application/json"
+			w.body, ctype = []byte(`{"other":"x"}`), "application/json"
 		case "form-noparam":
-			body, ctype = []byte("other=x"), "application/x-www-form-urlencoded"
+			w.body, ctype = []byte("other=x"), "application/x-www-form-urlencoded"
 		case "json-array":
-			body, ctype = []byte(`["access_token"]`), "application/json"
+			w.body, ctype = []byte(`["access_token"]`), "application/json"
 		}
 	case "multi":
 		switch variant {
 		case "form-twice":
-			body, ctype = []byte("access_token=abc&access_token=def"), "application/x-www-form-urlencoded"
+			w.body, ctype = []byte("access_token=abc&access_token=def"), "application/x-www-form-urlencoded"
 		case "json-number":
-			body, ctype = []byte(`{"access_token":42}`), "application/json"
+			w.body, ctype = []byte(`{"access_token":42}`), "application/json"
 		default:
-			body, ctype = []byte(`{"access_token":["a","b"]}`), "application/json"
+			w.body, ctype = []byte(`{"access_token":["a","b"]}`), "application/json"
 		}
 	case "tok":
-		body, ctype = []byte("access_token="+url.QueryEscape(q.BodyTok.Serial)), "application/x-www-form-urlencoded"
+		w.body, ctype = []byte("access_token="+url.QueryEscape(q.BodyTok.Serial)), "application/x-www-form-urlencoded"
 	case "tok-json":
 		b, _ := json.Marshal(map[string]any{"access_token": q.BodyTok.Serial})
-		body, ctype = b, "application/json"
+		w.body, ctype = b, "application/json"
+	case "tok-json-array1":
+		b, _ := json.Marshal(map[string]any{"access_token": []string{q.BodyTok.Serial}})
+		w.body, ctype = b, "application/json"
 	}
 
-	method := http.MethodGet
-
-	var rd *bytes.Reader
-
-	if body != nil {
-		method = http.MethodPost
-		rd = bytes.NewReader(body)
+	if w.body != nil {
+		w.method = http.MethodPost
+		w.header["Content-Type"] = []string{ctype}
 	}
 
-	var req *http.Request
-	if rd != nil {
-		req = httptest.NewRequest(method, target, rd)
-		req.Header.Set("Content-Type", ctype)
-	} else {
-		req = httptest.NewRequest(method, target, nil)
+	valid := base64.StdEncoding.EncodeToString([]byte("alice:secret"))
+	good := func() string {
+		return e.sign(jose.ES256, e.ec, "k1", map[string]any{"iss": c04Issuer, "sub": "alice", "exp": time.Now().Unix() + 3600,
+			"aud": []string{"svc-a"}, "scope": "read"})
 	}
 
-	kind, variant, _ = strings.Cut(q.Auth, ":")
-
-	switch kind {
-	case "other":
-		valid := base64.StdEncoding.EncodeToString([]byte("alice:secret"))
-		good := e.sign(jose.ES256, e.ec, "k1", map[string]any{"iss": c04Issuer, "sub": "alice", "exp": time.Now().Unix() + 3600})
-
-		switch variant {
-		case "digest":
-			req.Header.Set("Authorization", `Digest username="alice"`)
-		case "lower-basic":
-			req.Header.Set("Authorization", "basic "+valid)
-		case "lower-bearer":
-			req.Header.Set("Authorization", "bearer "+good)
-		case "bearer-nospace":
-			req.Header.Set("Authorization", "Bearer")
-		case "basic-nospace":
-			req.Header.Set("Authorization", "Basic"+valid)
-		default:
-			req.Header.Set("Authorization", "Token "+good)
-		}
-	case "basic":
+	basicLine := func(variant string) string {
 		var payload string
 
 		switch variant {
 		case "badb64":
 			payload = "%%%not-base64%%%"
 		case "nocolon":
-			payload = base64.StdEncoding.EncodeToString([]byte(q.BasicUser + q.BasicPass + "x"))
+			payload = base64.StdEncoding.EncodeToString([]byte(q.BasicUser + strings.ReplaceAll(q.BasicPass, ":", "") + "x"))
 		case "threeparts":
-			payload = base64.StdEncoding.EncodeToString([]byte(q.BasicUser + ":" + q.BasicPass + ":x"))
+			payload = base64.StdEncoding.EncodeToString([]byte(q.BasicUser + ":" + strings.ReplaceAll(q.BasicPass, ":", "") + ":x"))
 		case "emptypayload":
 			payload = ""
 		default:
 			payload = base64.StdEncoding.EncodeToString([]byte(q.BasicUser + ":" + q.BasicPass))
 		}
 
-		// net/http would drop a trailing space on the wire; the request context is built
-		// directly here, so keep the scheme prefix the extractor looks for
-		req.Header.Set("Authorization", "Basic "+payload)
+		// net/http would drop a trailing space on the wire; the requests are handed over as objects
+		return "Basic " + payload
+	}
+
+	kind, variant, _ = strings.Cut(q.Auth, ":")
+
+	switch kind {
+	case "other":
+		switch variant {
+		case "digest":
+			w.header["Authorization"] = []string{`Digest username="alice"`}
+		case "lower-basic":
+			w.header["Authorization"] = []string{"basic " + valid}
+		case "lower-bearer":
+			w.header["Authorization"] = []string{"bearer " + good()}
+		case "bearer-nospace":
+			w.header["Authorization"] = []string{"Bearer"}
+		case "basic-nospace":
+			w.header["Authorization"] = []string{"Basic" + valid}
+		default:
+			w.header["Authorization"] = []string{"Token " + good()}
+		}
+	case "basic":
+		w.header["Authorization"] = []string{basicLine(variant)}
 	case "bearer":
-		req.Header.Set("Authorization", "Bearer "+q.AuthTok.Serial)
+		w.header["Authorization"] = []string{"Bearer " + q.AuthTok.Serial}
+	case "bearer-empty":
+		w.header["Authorization"] = []string{"Bearer   "}
+	case "dup":
+		digest := `Digest username="alice"`
+
+		switch variant {
+		case "basic+digest":
+			w.header["Authorization"] = []string{basicLine("pair"), digest}
+		case "digest+basic":
+			w.header["Authorization"] = []string{digest, basicLine("pair")}
+		case "bearer+basic":
+			w.header["Authorization"] = []string{"Bearer " + q.AuthTok.Serial, basicLine("pair")}
+		case "digest+bearer":
+			w.header["Authorization"] = []string{digest, "Bearer " + q.AuthTok.Serial}
+		default:
+			w.header["Authorization"] = []string{basicLine("pair"), "Basic " + valid}
+		}
+	}
+
+	if q.XTok != nil {
+		w.header["X-Token"] = []string{q.XTok.Serial}
 	}
 
 	if q.Cookie != "" {
-		req.AddCookie(&http.Cookie{Name: "session", Value: q.Cookie})
+		w.header["Cookie"] = []string{"session=" + q.Cookie}
 	}
 
 	if q.XSess != "" {
-		req.Header.Set("X-Session", q.XSess)
+		w.header["X-Session"] = []string{q.XSess}
+	}
+
+	return w
+}
+
+func (w c04Wire) httpRequest() *http.Request {
+	var req *http.Request
+	if w.body != nil {
+		req = httptest.NewRequest(w.method, "http://heimdall.local"+w.target, bytes.NewReader(w.body))
+	} else {
+		req = httptest.NewRequest(w.method, "http://heimdall.local"+w.target, nil)
+	}
+
+	for k, vs := range w.header {
+		req.Header[k] = append([]string(nil), vs...)
 	}
 
 	return req
 }
 
+// what the Envoy proxy hands over: lower-case names, field lines of one name joined with ","
+func (w c04Wire) checkRequest() *envoy_auth.CheckRequest {
+	hdrs := map[string]string{}
+	for k, vs := range w.header {
+		hdrs[strings.ToLower(k)] = strings.Join(vs, ",")
+	}
+
+	return &envoy_auth.CheckRequest{Attributes: &envoy_auth.AttributeContext{Request: &envoy_auth.AttributeContext_Request{
+		Http: &envoy_auth.AttributeContext_HttpRequest{
+			Method: w.method, Scheme: "http", Host: "heimdall.local", Path: "/resource", Query: w.query,
+			Headers: hdrs, Body: string(w.body), RawBody: w.body,
+		},
+	}}}
+}
+
 // ---- running the real code ---------------------------------------------------------------
 
 type c04Seen struct {
-	Sub string `json:"sub,omitempty"`
-	Err string `json:"err,omitempty"` // nocreds rejected comm timeout internal config unknown
+	Pos  int    `json:"pos"`           // index of the mechanism in the configured chain (from its id); >= 100: not of this chain
+	FB   bool   `json:"fb"`            // IsFallbackOnErrorAllowed() of the real object
+	Hit  string `json:"hit,omitempty"` // a cache lookup during this Execute found an entry: hit | garbage (the entry is the not-JSON body)
+	Sub  string `json:"sub,omitempty"`
+	Err  string `json:"err,omitempty"`  // nocreds | other
+	Kind string `json:"kind,omitempty"` // first heimdall sentinel found: argument authentication timeout communication internal configuration unknown (information only)
+}
+
+type c04E2E struct {
+	Kind    string  `json:"kind"`    // ok | denied
+	Status  int     `json:"status"`  // HTTP status / denied status (information only)
+	Subject *string `json:"subject"` // forwarded subject header
+}
+
+type c04StepObs struct {
+	Seen []c04Seen `json:"seen"`
+	Res  c04Seen   `json:"res"`
+	Nil  bool      `json:"nil,omitempty"` // (nil, nil)
+	E2E  *c04E2E   `json:"e2e,omitempty"`
 }
 
 type c04Obs struct {
-	Status string    `json:"status"` // ok | rule_rejected | panic
-	Seen   []c04Seen `json:"seen"`
-	Res    c04Seen   `json:"res"`
-	Nil    bool      `json:"nil,omitempty"` // (nil, nil)
-	Detail string    `json:"detail,omitempty"`
+	Status string       `json:"status"` // ok | rule_rejected | panic | driver
+	Steps  []c04StepObs `json:"steps"`
+	Detail string       `json:"detail,omitempty"`
+	Reruns int          `json:"reruns,omitempty"`
 }
 
-func c04ErrKind(err error) string {
+func c04ErrKind(err error) (class, kind string) {
+	class = "other"
+
 	switch {
 	case errors.Is(err, heimdall.ErrArgument):
-		return "nocreds"
+		return "nocreds", "argument"
 	case errors.Is(err, heimdall.ErrAuthentication):
-		return "rejected"
+		kind = "authentication"
 	case errors.Is(err, heimdall.ErrCommunicationTimeout):
-		return "timeout"
+		kind = "timeout"
 	case errors.Is(err, heimdall.ErrCommunication):
-		return "comm"
+		kind = "communication"
 	case errors.Is(err, heimdall.ErrInternal):
-		return "internal"
+		kind = "internal"
 	case errors.Is(err, heimdall.ErrConfiguration):
-		return "config"
+		kind = "configuration"
+	default:
+		kind = "unknown"
 	}
 
-	return "unknown"
+	return class, kind
+}
+
+// the recording cache: a real in-memory cache (one per case) behind a wrapper that notes hits
+type c04Cache struct {
+	inner cache.Cache
+	hit   string
+}
+
+func (c *c04Cache) Start(context.Context) error { return nil }
+func (c *c04Cache) Stop(context.Context) error  { return nil }
+
+func (c *c04Cache) Get(ctx context.Context, key string) ([]byte, error) {
+	v, err := c.inner.Get(ctx, key)
+	if err == nil {
+		c.hit = "hit"
+		if bytes.Equal(v, []byte(c04GarbageBody)) {
+			c.hit = "garbage"
+		}
+	}
+
+	return v, err
+}
+
+func (c *c04Cache) Set(ctx context.Context, key string, value []byte, ttl time.Duration) error {
+	return c.inner.Set(ctx, key, value, ttl)
+}
+
+func (c *c04Cache) reset() {
+	cch, err := memory.NewCache(nil, nil, nil)
+	if err != nil {
+		panic(err)
+	}
+
+	c.inner = cch
 }
 
 // records what the wrapped real authenticator answered; everything the
 // composite asks is delegated
 type c04Rec struct {
 	inner subjectCreator
+	cch   *c04Cache
 	log   *[]c04Seen
 }
 
-func (r *c04Rec) Execute(ctx heimdall.Context) (*subject.Subject, error) {
-	sub, err := r.inner.Execute(ctx)
-	if err != nil {
-		*r.log = append(*r.log, c04Seen{Err: c04ErrKind(err)})
-	} else {
-		*r.log = append(*r.log, c04Seen{Sub: sub.ID})
+func c04Pos(a any) int {
+	if m, ok := a.(interface{ ID() string }); ok {
+		id := m.ID()
+		if n, err := strconv.Atoi(strings.TrimLeft(id, "ad")); err == nil && len(id) > 1 {
+			if id[0] == 'a' {
+				return n
+			}
+
+			return 100 + n
+		}
 	}
+
+	return 999
+}
+
+func (r *c04Rec) Execute(ctx heimdall.Context) (*subject.Subject, error) {
+	r.cch.hit = ""
+	sub, err := r.inner.Execute(ctx)
+	s := c04Seen{Pos: c04Pos(r.inner), FB: r.inner.IsFallbackOnErrorAllowed(), Hit: r.cch.hit}
+
+	if err != nil {
+		s.Err, s.Kind = c04ErrKind(err)
+	} else {
+		s.Sub = sub.ID
+	}
+
+	*r.log = append(*r.log, s)
 
 	return sub, err
 }
 
 func (r *c04Rec) IsFallbackOnErrorAllowed() bool { return r.inner.IsFallbackOnErrorAllowed() }
 
-func c04ProtoID(a c04Authn) string {
-	switch a.Type {
-	case "anonymous":
-		return "anon"
-	case "unauthorized":
-		return "unauth"
-	case "basic_auth":
-		return "basic_" + c04FB(a.ProtoFB)
-	case "jwt":
-		return "jwt_" + a.Remote + "_" + c04FB(a.ProtoFB)
-	case "oauth2_introspection":
-		return "intro_" + a.Remote + "_" + c04FB(a.ProtoFB)
+func (e *c04Env) remoteURL(base, rem string) string { return base + "/" + rem }
+
+func (e *c04Env) prototype(id string, a c04Authn) config.Mechanism {
+	c := config.MechanismConfig{}
+
+	if a.Type != "anonymous" && a.Type != "unauthorized" {
+		c["allow_fallback_on_error"] = a.ProtoFB
 	}
 
-	return fmt.Sprintf("gen_%s_%t_%s", a.Remote, a.Lifespan, c04FB(a.ProtoFB))
+	assertions := map[string]any{"issuers": []any{c04Issuer}}
+	if a.Strict == "proto" {
+		assertions["audience"] = []any{"svc-a"}
+		assertions["scopes"] = []any{"read"}
+	}
+
+	if ttl, ok := strings.CutPrefix(a.TTL, "proto:"); ok {
+		c["cache_ttl"] = ttl
+	}
+
+	custom := []any{map[string]any{"header": "X-Token"}, map[string]any{"query_parameter": "access_token"}}
+
+	endpoint := func(kind, base, key string) {
+		switch {
+		case a.Disc == "":
+			c[key] = map[string]any{"url": e.remoteURL(base, a.Remote)}
+		case a.Disc == "meta:tmpl":
+			c["metadata_endpoint"] = map[string]any{
+				"url":                                    e.meta.URL + "/tmpl/" + kind + "/" + a.Remote + "/{{ .TokenIssuer }}/.well-known/openid-configuration",
+				"http_cache":                             map[string]any{"enabled": false},
+				"disable_issuer_identifier_verification": true,
+			}
+		case a.Disc == "meta:noep":
+			c["metadata_endpoint"] = map[string]any{
+				"url":        e.meta.URL + "/up/none/" + a.Remote + "/.well-known/oauth-authorization-server",
+				"http_cache": map[string]any{"enabled": false},
+			}
+		default:
+			c["metadata_endpoint"] = map[string]any{
+				"url":        e.meta.URL + "/" + strings.TrimPrefix(a.Disc, "meta:") + "/" + kind + "/" + a.Remote + "/.well-known/oauth-authorization-server",
+				"http_cache": map[string]any{"enabled": false},
+			}
+		}
+	}
+
+	switch a.Type {
+	case "basic_auth":
+		c["user_id"], c["password"] = "alice", "secret"
+	case "jwt":
+		endpoint("jwks", e.jwks.URL, "jwks_endpoint")
+		c["assertions"] = assertions
+
+		if a.Source == "custom" {
+			c["jwt_source"] = custom
+		}
+	case "oauth2_introspection":
+		endpoint("intro", e.intro.URL, "introspection_endpoint")
+		c["assertions"] = assertions
+
+		if a.Source == "custom" {
+			c["token_source"] = custom
+		}
+	case "generic":
+		c["identity_info_endpoint"] = map[string]any{
+			"url": e.remoteURL(e.ident.URL, a.Remote), "method": "GET",
+			"headers": map[string]any{"X-Auth-Data": "{{ .AuthenticationData }}"},
+		}
+		c["authentication_data_source"] = []any{map[string]any{"cookie": "session"}, map[string]any{"header": "X-Session"}}
+		c["subject"] = map[string]any{"id": "sub"}
+
+		if a.Lifespan {
+			c["session_lifespan"] = map[string]any{"active": "active"}
+		}
+	}
+
+	m := config.Mechanism{ID: id, Type: a.Type}
+	if len(c) != 0 {
+		m.Config = c
+	}
+
+	return m
 }
 
-func c04Step(a c04Authn) config.MechanismConfig {
-	step := config.MechanismConfig{"authenticator": c04ProtoID(a)}
+func c04Step(id string, a c04Authn) config.MechanismConfig {
+	step := config.MechanismConfig{"authenticator": id}
 	over := map[string]any{}
 
 	switch a.Override {
@@ -772,6 +1162,14 @@ func c04Step(a c04Authn) config.MechanismConfig {
 		over["allow_fallback_on_error"] = true
 	case "false":
 		over["allow_fallback_on_error"] = false
+	}
+
+	if a.Strict == "rule" {
+		over["assertions"] = map[string]any{"audience": []any{"svc-a"}, "scopes": []any{"read"}}
+	}
+
+	if ttl, ok := strings.CutPrefix(a.TTL, "rule:"); ok {
+		over["cache_ttl"] = ttl
 	}
 
 	if a.Subject != "" {
@@ -789,57 +1187,257 @@ func c04Step(a c04Authn) config.MechanismConfig {
 	return step
 }
 
-func (e *c04Env) run(factory *ruleFactory, c *c04Case, r *vf.Rand) (obs c04Obs) {
-	req := e.request(&c.Req, r)
-	ctx := requestcontext.New(req)
-
-	var sc compositeSubjectCreator
-
-	if len(c.Chain) != 0 {
-		var steps []config.MechanismConfig
-		for _, a := range c.Chain {
-			steps = append(steps, c04Step(a))
-		}
-
-		rul, err := factory.CreateRule("1alpha4", "c04", config2.Rule{
-			ID:      "r",
-			Matcher: config2.Matcher{Routes: []config2.Route{{Path: "/resource"}}},
-			Execute: steps,
-		})
-		if err != nil {
-			return c04Obs{Status: "rule_rejected", Detail: err.Error()}
-		}
-
-		sc = rul.(*ruleImpl).sc //nolint:forcetypeassert
+// the field of the rule object that holds the authenticators, whatever it is called
+func c04Composite(r rule.Rule) (reflect.Value, bool) {
+	v := reflect.ValueOf(r)
+	if v.Kind() != reflect.Pointer || v.Elem().Kind() != reflect.Struct {
+		return reflect.Value{}, false
 	}
 
-	var log []c04Seen
+	want := reflect.TypeOf(compositeSubjectCreator(nil))
 
-	wrapped := make(compositeSubjectCreator, len(sc))
-	for i, a := range sc {
-		wrapped[i] = &c04Rec{inner: a, log: &log}
+	for i := 0; i < v.Elem().NumField(); i++ {
+		if f := v.Elem().Field(i); f.Type() == want {
+			return reflect.NewAt(f.Type(), unsafe.Pointer(f.UnsafeAddr())).Elem(), true
+		}
 	}
+
+	return reflect.Value{}, false
+}
+
+// the services, built once; they execute whatever rule the driver points them at
+type c04Services struct {
+	cch      *c04Cache
+	cur      rule.Rule
+	decision http.Handler
+	srv      *grpc.Server
+	conn     *grpc.ClientConn
+	envoy    envoy_auth.AuthorizationClient
+}
+
+func (s *c04Services) FindRule(heimdall.Context) (rule.Rule, error) { return s.cur, nil }
+func (s *c04Services) AddRuleSet(string, []rule.Rule) error         { return nil }
+func (s *c04Services) UpdateRuleSet(string, []rule.Rule) error      { return nil }
+func (s *c04Services) DeleteRuleSet(string) error                   { return nil }
+
+func c04NewServices() *c04Services {
+	s := &c04Services{cch: &c04Cache{}}
+	s.cch.reset()
+
+	conf := &config.Configuration{}
+	conf.Serve.Decision = config.ServiceConfig{Host: "127.0.0.1", Port: 1}
+	exec := newRuleExecutor(s)
+
+	s.decision = decision.VerifNewService(conf, s.cch, zerolog.Nop(), exec).Handler
+
+	lis := bufconn.Listen(1 << 20)
+	s.srv = grpcv3.VerifNewService(conf, s.cch, zerolog.Nop(), exec)
+
+	go s.srv.Serve(lis) //nolint:errcheck
+
+	conn, err := grpc.NewClient("passthrough://bufnet",
+		grpc.WithContextDialer(func(context.Context, string) (net.Conn, error) { return lis.Dial() }),
+		grpc.WithTransportCredentials(insecure.NewCredentials()))
+	if err != nil {
+		panic(err)
+	}
+
+	s.conn, s.envoy = conn, envoy_auth.NewAuthorizationClient(conn)
+
+	return s
+}
+
+func (s *c04Services) close() {
+	s.conn.Close()
+	s.srv.Stop()
+}
+
+func (e *c04Env) setSw(state string) {
+	e.mu.Lock()
+	e.sw = state
+	e.mu.Unlock()
+}
+
+func (e *c04Env) run(svc *c04Services, c *c04Case, r *vf.Rand) (obs c04Obs) {
+	var (
+		log     []c04Seen
+		wrapped compositeSubjectCreator
+		steps   []config.MechanismConfig
+		protos  []config.Mechanism
+	)
+
+	svc.cch.reset()
 
 	defer func() {
 		if p := recover(); p != nil {
-			obs = c04Obs{Status: "panic", Seen: log, Detail: fmt.Sprint(p)}
+			obs.Status, obs.Detail = "panic", fmt.Sprint(p)
 		}
 	}()
 
-	sub, err := wrapped.Execute(ctx)
+	if len(c.Chain) != 0 {
+		for i, a := range c.Chain {
+			id := "a" + strconv.Itoa(i)
+			protos = append(protos, e.prototype(id, a))
+			steps = append(steps, c04Step(id, a))
+		}
 
-	obs = c04Obs{Status: "ok", Seen: log}
+		steps = append(steps, config.MechanismConfig{"finalizer": "subj"})
 
-	switch {
-	case err != nil:
-		obs.Res = c04Seen{Err: c04ErrKind(err)}
-	case sub == nil:
-		obs.Nil = true
-	default:
-		obs.Res = c04Seen{Sub: sub.ID}
+		conf := &config.Configuration{Prototypes: &config.MechanismPrototypes{
+			Finalizers: []config.Mechanism{{ID: "subj", Type: "header", Config: config.MechanismConfig{
+				"headers": map[string]any{c04SubjectHdr: "{{ .Subject.ID }}"},
+			}}},
+		}}
+
+		switch c.Default {
+		case "ignored": // a default rule whose authenticators must not show up anywhere
+			protos = append(protos,
+				config.Mechanism{ID: "d0", Type: "basic_auth", Config: config.MechanismConfig{
+					"user_id": "root", "password": "toor", "allow_fallback_on_error": true,
+				}},
+				config.Mechanism{ID: "d1", Type: "anonymous", Config: config.MechanismConfig{"subject": "default-rule-guest"}})
+			conf.Default = &config.DefaultRule{Execute: []config.MechanismConfig{
+				{"authenticator": "d0"}, {"authenticator": "d1"}, {"finalizer": "subj"},
+			}}
+		case "applies":
+			conf.Default = &config.DefaultRule{Execute: steps}
+		}
+
+		conf.Prototypes.Authenticators = protos
+
+		mf, err := mechanisms.NewMechanismFactory(conf, zerolog.Nop(), nil, nil, nil)
+		if err != nil {
+			return c04Obs{Status: "rule_rejected", Detail: "mechanism factory: " + err.Error()}
+		}
+
+		rf, err := NewRuleFactory(mf, conf, config.DecisionMode, zerolog.Nop())
+		if err != nil {
+			return c04Obs{Status: "rule_rejected", Detail: "rule factory: " + err.Error()}
+		}
+
+		var rul rule.Rule
+
+		if c.Default == "applies" {
+			rul = rf.DefaultRule()
+		} else {
+			rul, err = rf.CreateRule("1alpha4", "c04", config2.Rule{
+				ID:      "r",
+				Matcher: config2.Matcher{Routes: []config2.Route{{Path: "/resource"}}},
+				Execute: steps,
+			})
+			if err != nil {
+				return c04Obs{Status: "rule_rejected", Detail: err.Error()}
+			}
+		}
+
+		field, ok := c04Composite(rul)
+		if !ok {
+			return c04Obs{Status: "driver", Detail: "no compositeSubjectCreator field in the rule object"}
+		}
+
+		sc := field.Interface().(compositeSubjectCreator) //nolint:forcetypeassert
+		wrapped = make(compositeSubjectCreator, len(sc))
+
+		for i, a := range sc {
+			wrapped[i] = &c04Rec{inner: a, cch: svc.cch, log: &log}
+		}
+
+		field.Set(reflect.ValueOf(wrapped))
+		svc.cur = rul
+	}
+
+	obs.Status = "ok"
+
+	for i := range c.Steps {
+		q := &c.Steps[i]
+		w := e.wire(q, r)
+		e.setSw(q.Sw)
+
+		log = nil
+
+		var so c04StepObs
+
+		switch {
+		case c.Entry == "direct" || len(c.Chain) == 0:
+			req := w.httpRequest()
+			req = req.WithContext(cache.WithContext(req.Context(), svc.cch))
+
+			sub, err := wrapped.Execute(requestcontext.New(req))
+
+			switch {
+			case err != nil:
+				so.Res.Err, so.Res.Kind = c04ErrKind(err)
+			case sub == nil:
+				so.Nil = true
+			default:
+				so.Res.Sub = sub.ID
+			}
+		case c.Entry == "decision":
+			rec := httptest.NewRecorder()
+			svc.decision.ServeHTTP(rec, w.httpRequest())
+
+			so.E2E = &c04E2E{Kind: "denied", Status: rec.Code}
+			if rec.Code >= 200 && rec.Code < 300 {
+				so.E2E.Kind = "ok"
+			}
+
+			if vs, ok := rec.Header()[c04SubjectHdr]; ok && len(vs) != 0 {
+				so.E2E.Subject = &vs[0]
+			}
+		default:
+			resp, err := svc.envoy.Check(context.Background(), w.checkRequest())
+
+			so.E2E = &c04E2E{Kind: "denied"}
+
+			switch {
+			case err != nil:
+			case resp.GetDeniedResponse() != nil:
+				so.E2E.Status = int(resp.GetDeniedResponse().GetStatus().GetCode())
+			default:
+				so.E2E.Kind = "ok"
+
+				for _, h := range resp.GetOkResponse().GetHeaders() {
+					if http.CanonicalHeaderKey(h.GetHeader().GetKey()) == c04SubjectHdr {
+						v := h.GetHeader().GetValue()
+						so.E2E.Subject = &v
+					}
+				}
+			}
+		}
+
+		so.Seen = log
+
+		// through a service the composite's own answer is what its last consulted authenticator answered
+		if so.E2E != nil && len(log) != 0 {
+			last := log[len(log)-1]
+			so.Res = c04Seen{Sub: last.Sub, Err: last.Err, Kind: last.Kind}
+		}
+
+		obs.Steps = append(obs.Steps, so)
 	}
 
 	return obs
+}
+
+// a call that ran into the time limit although its endpoint is not a slow one: the machine is
+// busy; the case is run again
+func c04UnexpectedTimeout(c *c04Case, o c04Obs) bool {
+	for i, so := range o.Steps {
+		for _, s := range so.Seen {
+			if s.Kind != "timeout" || s.Pos >= len(c.Chain) {
+				continue
+			}
+
+			a := c.Chain[s.Pos]
+			if a.Remote == "slow" || a.Disc == "meta:slow" || (a.Remote == "sw" && c.Steps[i].Sw == "slow") {
+				continue
+			}
+
+			return true
+		}
+	}
+
+	return false
 }
 
 // ---- rendering for Coq -----------------------------------------------------------------
@@ -847,30 +1445,36 @@ func (e *c04Env) run(factory *ruleFactory, c *c04Case, r *vf.Rand) (obs c04Obs) 
 func c04CoqToken(t *c04Token) string {
 	var j string
 
-	kind, _, _ := strings.Cut(t.JWT, ":")
+	kind, variant, _ := strings.Cut(t.JWT, ":")
 
 	switch kind {
-	case "notjws":
+	case "notjws", "garbage":
 		j = "NotJWS"
+	case "noclaims":
+		j = "JWSNoClaims"
 	case "keyunknown":
-		j = "(JWS JKeyUnknown)"
+		j = "(JWS true JKeyUnknown)"
 	case "badsig":
-		j = "(JWS JBadSig)"
+		j = "(JWS true JBadSig)"
 	case "assertfail":
-		j = "(JWS JAssertFail)"
+		j = "(JWS " + vf.CoqBool(variant != "issuer") + " JAssertFail)"
+	case "narrow":
+		j = "(JWS true (JNarrow " + vf.CoqStr(t.Sub) + "))"
 	case "nosub":
-		j = "(JWS JNoSubject)"
+		j = "(JWS true JNoSubject)"
 	default:
-		j = "(JWS (JValid " + vf.CoqStr(t.Sub) + "))"
+		j = "(JWS true (JValid " + vf.CoqStr(t.Sub) + "))"
 	}
 
 	var i string
 
-	switch t.Intro {
+	switch kind, _, _ := strings.Cut(t.Intro, ":"); kind {
 	case "inactive":
 		i = "IInactive"
 	case "assertfail":
 		i = "IAssertFail"
+	case "narrow":
+		i = "(INarrow " + vf.CoqStr(t.ISub) + ")"
 	case "nosub":
 		i = "INoSubject"
 	default:
@@ -907,8 +1511,33 @@ func c04CoqSession(s string) string {
 	return "(Some SUnknown)"
 }
 
+func c04CoqState(s string) string {
+	switch s {
+	case "down":
+		return "SDown"
+	case "status":
+		return "SStatus"
+	case "garbage":
+		return "SGarbage"
+	case "slow":
+		return "SSlow"
+	}
+
+	return "SUp"
+}
+
+// the shape of the combined Authorization field value (RFC 9110 5.3: field lines joined with ",")
 func c04CoqReq(q c04Req) string {
 	var auth string
+
+	garbage := c04CoqToken(c04Garbage(""))
+	pair := func() string {
+		if strings.Contains(q.BasicPass, ":") {
+			return "(AHBasic (BParts 3))"
+		}
+
+		return "(AHBasic (BPair " + vf.CoqStr(q.BasicUser) + " " + vf.CoqStr(q.BasicPass) + "))"
+	}
 
 	kind, variant, _ := strings.Cut(q.Auth, ":")
 
@@ -926,7 +1555,18 @@ func c04CoqReq(q c04Req) string {
 		case "threeparts":
 			auth = "(AHBasic (BParts 3))"
 		default:
-			auth = "(AHBasic (BPair " + vf.CoqStr(q.BasicUser) + " " + vf.CoqStr(q.BasicPass) + "))"
+			auth = pair()
+		}
+	case "bearer-empty": // the token is the empty string
+		auth = "(AHBearer " + garbage + ")"
+	case "dup":
+		switch variant {
+		case "basic+digest", "basic+basic": // "Basic <b64>,<more>": the payload is not base64
+			auth = "(AHBasic BBadB64)"
+		case "bearer+basic": // "Bearer <token>,Basic ..": a token nobody knows
+			auth = "(AHBearer " + garbage + ")"
+		default: // the value starts with another scheme
+			auth = "AHOther"
 		}
 	default:
 		auth = "(AHBearer " + c04CoqToken(q.AuthTok) + ")"
@@ -937,15 +1577,41 @@ func c04CoqReq(q c04Req) string {
 	switch k, _, _ := strings.Cut(q.Body, ":"); k {
 	case "multi":
 		body = "BodyMulti"
-	case "tok", "tok-json":
+	case "tok", "tok-json", "tok-json-array1":
 		body = "(BodyTok " + c04CoqToken(q.BodyTok) + ")"
 	}
 
-	return vf.CoqApp("rq", auth, c04CoqOptToken(q.QueryTok), body, c04CoqSession(q.Cookie), c04CoqSession(q.XSess))
+	query := c04CoqOptToken(q.QueryTok)
+	if q.QueryBlank {
+		query = "(Some " + garbage + ")"
+	}
+
+	return vf.CoqApp("rq", auth, c04CoqOptToken(q.XTok), query, body, c04CoqSession(q.Cookie), c04CoqSession(q.XSess), c04CoqState(q.Sw))
 }
 
 func c04CoqAuthn(a c04Authn) string {
 	var t string
+
+	rem := "RSwitch"
+	if a.Remote != "sw" {
+		rem = "(RFixed " + c04CoqState(a.Remote) + ")"
+	}
+
+	disc := "DDirect"
+
+	switch {
+	case a.Disc == "meta:tmpl":
+		disc = "DMetaTemplated"
+	case a.Disc == "meta:noep":
+		disc = "DMetaNoEndpoint"
+	case a.Disc != "":
+		disc = "(DMeta " + c04CoqState(strings.TrimPrefix(a.Disc, "meta:")) + ")"
+	}
+
+	src := "SrcDefault"
+	if a.Source == "custom" {
+		src = "SrcCustom"
+	}
 
 	switch a.Type {
 	case "anonymous":
@@ -965,23 +1631,34 @@ func c04CoqAuthn(a c04Authn) string {
 
 		t = "(TBasic " + vf.CoqStr(u) + " " + vf.CoqStr(p) + ")"
 	case "jwt":
-		t = "(TJwt " + a.Remote + ")"
+		t = vf.CoqApp("TJwt", src, disc, rem, vf.CoqBool(a.Strict != ""))
 	case "oauth2_introspection":
-		t = "(TIntro " + a.Remote + ")"
+		t = vf.CoqApp("TIntro", src, disc, rem, vf.CoqBool(a.Strict != ""))
 	default:
-		t = "(TGeneric " + a.Remote + " " + vf.CoqBool(a.Lifespan) + ")"
+		t = vf.CoqApp("TGeneric", rem, vf.CoqBool(a.Lifespan))
 	}
 
-	return vf.CoqApp("au", t, vf.CoqBool(a.effectiveFB()))
+	over := "None"
+
+	switch a.Override {
+	case "true":
+		over = "(Some true)"
+	case "false":
+		over = "(Some false)"
+	}
+
+	return vf.CoqApp("au", t, vf.CoqBool(a.ProtoFB), over)
 }
 
-func c04CoqErr(k string) string {
-	switch k {
-	case "nocreds":
+func c04CoqErr(s c04Seen) string {
+	if s.Err == "nocreds" {
 		return "ENoCreds"
-	case "rejected":
+	}
+
+	switch s.Kind {
+	case "authentication":
 		return "ERejected"
-	case "comm":
+	case "communication":
 		return "(EOther KComm)"
 	case "timeout":
 		return "(EOther KTimeout)"
@@ -992,112 +1669,238 @@ func c04CoqErr(k string) string {
 	return "(EOther KConfig)"
 }
 
-func c04CoqSeen(s c04Seen) string {
+func c04CoqOutcome(s c04Seen) string {
 	if s.Err != "" {
-		return "(Failed " + c04CoqErr(s.Err) + ")"
+		return "(Failed " + c04CoqErr(s) + ")"
 	}
 
 	return "(Accepted " + vf.CoqStr(s.Sub) + ")"
 }
 
-func c04Coq(c c04Case, o c04Obs) string {
+func c04CoqSeen(s c04Seen) string {
+	hit := "LMiss"
+
+	switch s.Hit {
+	case "hit":
+		hit = "LHit"
+	case "garbage":
+		hit = "LHitGarbage"
+	}
+
+	return vf.CoqApp("sn", vf.CoqNat(s.Pos), vf.CoqBool(s.FB), hit, c04CoqOutcome(s))
+}
+
+func c04CoqStep(q c04Req, o c04StepObs) string {
 	res := "RNil"
 
 	switch {
-	case o.Status != "ok":
-		// a rejected rule or a panic is no answer of the composite: render an answer no model run produces
-		return vf.CoqApp("cs", vf.CoqListOf(c.Chain, c04CoqAuthn), c04CoqReq(c.Req), "[]", "(RError (EOther KConfig))")
 	case o.Nil:
 	case o.Res.Err != "":
-		res = "(RError " + c04CoqErr(o.Res.Err) + ")"
+		res = "(RError " + c04CoqErr(o.Res) + ")"
 	default:
 		res = "(RSubject " + vf.CoqStr(o.Res.Sub) + ")"
 	}
 
-	return vf.CoqApp("cs", vf.CoqListOf(c.Chain, c04CoqAuthn), c04CoqReq(c.Req), vf.CoqListOf(o.Seen, c04CoqSeen), res)
+	e2e := "E2None"
+
+	switch {
+	case o.E2E == nil:
+	case o.E2E.Kind != "ok":
+		e2e = "E2Denied"
+	case o.E2E.Subject == nil:
+		e2e = "(E2Ok None)"
+	default:
+		e2e = "(E2Ok (Some " + vf.CoqStr(*o.E2E.Subject) + "))"
+	}
+
+	return vf.CoqApp("stp", c04CoqReq(q), vf.CoqListOf(o.Seen, c04CoqSeen), res, e2e)
+}
+
+func c04Coq(c c04Case, o c04Obs) string {
+	chain := vf.CoqListOf(c.Chain, c04CoqAuthn)
+
+	if o.Status != "ok" || len(o.Steps) != len(c.Steps) {
+		// a rejected rule or a panic is no answer of the composite: render an observation no model run produces
+		return vf.CoqApp("cs", chain, "[stp "+c04CoqReq(c.Steps[0])+" [sn 999%nat false LMiss (Failed (EOther KConfig))] (RError (EOther KConfig)) E2None]")
+	}
+
+	var steps []string
+	for i := range c.Steps {
+		steps = append(steps, c04CoqStep(c.Steps[i], o.Steps[i]))
+	}
+
+	return vf.CoqApp("cs", chain, vf.CoqList(steps))
 }
 
 // ---- histogram ---------------------------------------------------------------------------
 
 func c04Tags(c c04Case, o c04Obs) []string {
-	tags := []string{"status:" + o.Status, fmt.Sprintf("chain_len:%d", min(len(c.Chain), 6)),
-		fmt.Sprintf("consulted:%d", min(len(o.Seen), 6))}
+	tags := []string{"status:" + o.Status, fmt.Sprintf("chain_len:%d", min(len(c.Chain), 6)), "entry:" + c.Entry,
+		fmt.Sprintf("steps:%d", len(c.Steps)), "default_rule:" + c.Default}
 
-	auth, _, _ := strings.Cut(c.Req.Auth, ":")
-	tags = append(tags, "req_auth:"+auth)
+	if o.Reruns != 0 {
+		tags = append(tags, "rerun:unexpected-timeout")
+	}
 
-	for i, s := range o.Seen {
-		k := s.Err
-		if k == "" {
-			k = "accepted"
+	for _, a := range c.Chain {
+		if a.Disc != "" {
+			tags = append(tags, "conf:disc:"+a.Disc)
 		}
 
-		tags = append(tags, "site:"+c.Chain[i].Type+"->"+k)
+		if a.Strict != "" {
+			tags = append(tags, "conf:strict:"+a.Strict)
+		}
 
-		if i < len(o.Seen)-1 {
-			if s.Err == "nocreds" {
-				tags = append(tags, "continue:nocreds")
-			} else {
-				tags = append(tags, "continue:optin")
-			}
+		if a.TTL != "" {
+			tags = append(tags, "conf:ttl:"+a.TTL)
+		}
+
+		if a.Source != "" {
+			tags = append(tags, "conf:source:custom")
+		}
+
+		if a.Override == "" && a.overridesOther() {
+			tags = append(tags, "conf:rule-level-config-without-flag")
+		}
+
+		if a.Override != "" && a.overridesOther() {
+			tags = append(tags, "conf:rule-level-config-with-flag")
 		}
 	}
 
-	if n := len(o.Seen); n > 0 && o.Seen[n-1].Err != "" {
-		if n < len(c.Chain) {
-			tags = append(tags, "break:blocked-before-end")
+	for i, so := range o.Steps {
+		q := c.Steps[i]
+		auth, _, _ := strings.Cut(q.Auth, ":")
+		tags = append(tags, "req_auth:"+auth, fmt.Sprintf("consulted:%d", min(len(so.Seen), 6)))
 
-			for _, a := range c.Chain[n:] {
-				if a.Type == "anonymous" {
-					tags = append(tags, "break:anonymous-behind-not-reached")
+		for j, s := range so.Seen {
+			k := s.Kind
+			if s.Err == "" {
+				k = "accepted"
+			}
 
-					break
+			if s.Pos < len(c.Chain) {
+				tags = append(tags, "site:"+c.Chain[s.Pos].Type+"->"+k)
+			}
+
+			if s.Hit != "" && s.Pos < len(c.Chain) {
+				tags = append(tags, "cache-"+s.Hit+":"+c.Chain[s.Pos].Type)
+			}
+
+			if j < len(so.Seen)-1 {
+				if s.Err == "nocreds" {
+					tags = append(tags, "continue:nocreds")
+				} else {
+					tags = append(tags, "continue:optin")
 				}
 			}
-		} else {
-			tags = append(tags, "end:exhausted-or-last-blocked")
 		}
-	}
 
-	if o.Res.Sub != "" {
-		tags = append(tags, "end:subject")
+		if n := len(so.Seen); n > 0 && so.Seen[n-1].Err != "" {
+			if n < len(c.Chain) {
+				tags = append(tags, "break:blocked-before-end")
+
+				for _, a := range c.Chain[n:] {
+					if a.Type == "anonymous" {
+						tags = append(tags, "break:anonymous-behind-not-reached")
+
+						break
+					}
+				}
+			} else {
+				tags = append(tags, "end:exhausted-or-last-blocked")
+			}
+		}
+
+		if so.Res.Sub != "" {
+			tags = append(tags, "end:subject")
+		}
+
+		if so.E2E != nil {
+			tags = append(tags, fmt.Sprintf("e2e:%s:%d", so.E2E.Kind, so.E2E.Status))
+		}
 	}
 
 	return tags
 }
 
-// non-trivial: at least two authenticators in the chain and the first consulted
-// one did not accept (so the continue/break decision was taken at least once)
+// non-trivial: at least two authenticators in the chain and, for some request, the first
+// consulted one did not accept (so the continue/break decision was taken at least once)
 func c04Nontrivial(c c04Case, o c04Obs) bool {
-	return o.Status == "ok" && len(c.Chain) >= 2 && len(o.Seen) >= 1 && o.Seen[0].Err != ""
+	if o.Status != "ok" || len(c.Chain) < 2 {
+		return false
+	}
+
+	for _, so := range o.Steps {
+		if len(so.Seen) >= 1 && so.Seen[0].Err != "" {
+			return true
+		}
+	}
+
+	return false
 }
 
 func c04Corpus() []c04Case {
-	jwtA := c04Authn{Type: "jwt", Remote: "RUp"}
+	jwtA := c04Authn{Type: "jwt", Remote: "up"}
 	basic := c04Authn{Type: "basic_auth"}
 	basicFB := c04Authn{Type: "basic_auth", ProtoFB: true}
-	intro := c04Authn{Type: "oauth2_introspection", Remote: "RUp"}
-	gen := c04Authn{Type: "generic", Remote: "RUp", Lifespan: true}
+	intro := c04Authn{Type: "oauth2_introspection", Remote: "up"}
+	gen := c04Authn{Type: "generic", Remote: "up", Lifespan: true}
 	anon := c04Authn{Type: "anonymous"}
-	wrongPw := c04Req{Auth: "basic:pair", BasicUser: "alice", BasicPass: "wrong", Body: "none:nobody"}
-	none := c04Req{Auth: "absent", Body: "none:nobody"}
-	badSig := c04Req{Auth: "bearer", Body: "none:nobody", AuthTok: &c04Token{JWT: "badsig:flip", Intro: "active", Sub: "alice", ISub: "alice"}}
-	opaque := c04Req{Auth: "bearer", Body: "none:nobody", AuthTok: &c04Token{JWT: "notjws:opaque", Intro: "active", Sub: "alice", ISub: "bob"}}
-	inactive := c04Req{Auth: "bearer", Body: "none:nobody", AuthTok: &c04Token{JWT: "notjws:opaque", Intro: "inactive", Sub: "alice", ISub: "bob"}}
-	algNone := c04Req{Auth: "bearer", Body: "none:nobody", AuthTok: &c04Token{JWT: "notjws:algnone", Intro: "inactive", Sub: "alice", ISub: "bob"}}
+	wrongPw := c04Req{Auth: "basic:pair", BasicUser: "alice", BasicPass: "wrong", Body: "none:nobody", Sw: "up"}
+	none := c04Req{Auth: "absent", Body: "none:nobody", Sw: "up"}
+	bearer := func(jwt, intro, sw string) c04Req {
+		return c04Req{Auth: "bearer", Body: "none:nobody", Sw: sw, AuthTok: &c04Token{JWT: jwt, Intro: intro, Sub: "alice", ISub: "bob"}}
+	}
+	one := func(entry string, q c04Req, chain ...c04Authn) c04Case {
+		return c04Case{Chain: chain, Entry: entry, Steps: []c04Req{q}}
+	}
+	valid := bearer("valid", "active", "up")
+	validDown := valid
+	validDown.Sw = "down"
+	narrow := bearer("narrow:aud", "narrow:scope", "up")
+	dupDigestBasic := c04Req{Auth: "dup:digest+basic", BasicUser: "alice", BasicPass: "wrong", Body: "none:nobody", Sw: "up",
+		AuthTok: &c04Token{JWT: "valid", Intro: "active", Sub: "alice", ISub: "bob"}}
+	dupBasicDigest := dupDigestBasic
+	dupBasicDigest.Auth = "dup:basic+digest"
 
 	return []c04Case{
-		{Chain: []c04Authn{jwtA, basic, anon}, Req: wrongPw},                // rejected, anonymous not reached
-		{Chain: []c04Authn{jwtA, basicFB, anon}, Req: wrongPw},              // opt-in: anonymous
-		{Chain: []c04Authn{jwtA, basic, intro, gen, anon}, Req: none},       // nothing presented anywhere: anonymous
-		{Chain: []c04Authn{jwtA, basic, intro, gen}, Req: none},             // chain exhausted: last error
-		{Chain: []c04Authn{jwtA, anon}, Req: badSig},                        // bad signature blocks anonymous
-		{Chain: []c04Authn{jwtA, intro, anon}, Req: opaque},                 // opaque token: jwt passes it on to introspection
-		{Chain: []c04Authn{jwtA, intro, anon}, Req: inactive},               // inactive token blocks anonymous
-		{Chain: []c04Authn{jwtA, anon}, Req: algNone},                       // alg:none is "not a JWT" for the jwt authenticator
-		{Chain: []c04Authn{{Type: "jwt", Remote: "RDown"}, anon}, Req: badSig}, // JWKS unreachable blocks
-		{Chain: nil, Req: none},                                             // the empty composite answers (nil, nil)
-		{Chain: []c04Authn{{Type: "unauthorized", Override: "true"}, anon}, Req: none},
+		one("direct", wrongPw, jwtA, basic, anon),                                                         // rejected, anonymous not reached
+		one("direct", wrongPw, jwtA, basicFB, anon),                                                       // opt-in: anonymous
+		one("direct", none, jwtA, basic, intro, gen, anon),                                                // nothing presented anywhere: anonymous
+		one("direct", none, jwtA, basic, intro, gen),                                                      // chain exhausted: last error
+		one("direct", bearer("badsig:flip", "active", "up"), jwtA, anon),                                  // bad signature blocks anonymous
+		one("direct", bearer("notjws:opaque", "active", "up"), jwtA, intro, anon),                         // opaque token: jwt passes it on to introspection
+		one("direct", bearer("notjws:opaque", "inactive", "up"), jwtA, intro, anon),                       // inactive token blocks anonymous
+		one("direct", bearer("notjws:algnone", "inactive", "up"), jwtA, anon),                             // alg:none is "not a JWT" for the jwt authenticator
+		one("direct", bearer("badsig:flip", "active", "up"), c04Authn{Type: "jwt", Remote: "down"}, anon), // JWKS unreachable blocks
+		{Entry: "direct", Steps: []c04Req{none}},                                                          // the empty composite answers (nil, nil)
+		one("direct", none, c04Authn{Type: "unauthorized", Override: "true"}, anon),
+		// after the audit
+		one("direct", valid, c04Authn{Type: "jwt", Remote: "slow"}, anon),                    // JWKS call runs into the time limit: blocks
+		one("decision", valid, c04Authn{Type: "oauth2_introspection", Remote: "slow"}, anon), // same, through the decision service
+		one("envoy", wrongPw, basic, anon),                                                   // wrong password through Envoy ext_authz
+		one("envoy", wrongPw, basicFB, anon),
+		one("decision", wrongPw, jwtA, basic, anon),
+		one("direct", valid, c04Authn{Type: "jwt", Remote: "up", Disc: "meta:status"}, anon), // discovery fails: blocks
+		one("direct", bearer("assertfail:issuer", "active", "up"), c04Authn{Type: "oauth2_introspection", Remote: "up", Disc: "meta:tmpl"}, anon), // no metadata for a foreign issuer: blocks
+		one("direct", bearer("notjws:opaque", "active", "up"), c04Authn{Type: "oauth2_introspection", Remote: "up", Disc: "meta:tmpl"}, anon),
+		one("direct", narrow, c04Authn{Type: "jwt", Remote: "up", Strict: "rule"}, anon),                   // audience asserted on the rule level: blocks
+		one("direct", narrow, c04Authn{Type: "oauth2_introspection", Remote: "up", Strict: "proto"}, anon), // scope asserted: blocks
+		one("direct", narrow, c04Authn{Type: "jwt", Remote: "up", Strict: "rule", ProtoFB: true}, anon),    // rule-level assertions keep the prototype's opt-in
+		one("direct", narrow, c04Authn{Type: "jwt", Remote: "up", TTL: "rule:5m"}, c04Authn{Type: "oauth2_introspection", Remote: "up", Strict: "rule", TTL: "rule:0s"}, anon),
+		one("direct", c04Req{Auth: "absent", Body: "none:nobody", Cookie: "inactive-alice", Sw: "up"}, c04Authn{Type: "generic", Remote: "up", Lifespan: true, TTL: "rule:5m"}, anon),
+		{Chain: []c04Authn{{Type: "jwt", Remote: "sw"}, anon}, Entry: "direct", Steps: []c04Req{valid, validDown, valid}},                        // the JWK is cached: the endpoint may be down
+		{Chain: []c04Authn{{Type: "oauth2_introspection", Remote: "sw"}, anon}, Entry: "decision", Steps: []c04Req{validDown, valid, validDown}}, // down, then cached
+		{Chain: []c04Authn{{Type: "jwt", Remote: "sw", TTL: "rule:0s"}, anon}, Entry: "envoy", Steps: []c04Req{valid, validDown}},                // cache off on the rule level
+		{Chain: []c04Authn{jwtA, basic, anon}, Default: "ignored", Entry: "decision", Steps: []c04Req{wrongPw, none}},                            // the default rule's authenticators stay out
+		{Chain: []c04Authn{basic, anon}, Default: "applies", Entry: "envoy", Steps: []c04Req{wrongPw, none}},
+		one("direct", dupDigestBasic, basic, anon),   // the field value starts with another scheme
+		one("decision", dupBasicDigest, basic, anon), // Basic with an undecodable payload: blocks
+		one("envoy", c04Req{Auth: "bearer-empty", Body: "none:nobody", Sw: "up"}, jwtA, intro, anon),
+		one("direct", c04Req{Auth: "absent", Body: "none:nobody", Sw: "up", XTok: valid.AuthTok}, c04Authn{Type: "jwt", Remote: "up", Source: "custom"}, jwtA, anon),
+		one("direct", c04Req{Auth: "basic:pair", BasicUser: "alice", BasicPass: "se:cret", Body: "none:nobody", Sw: "up"}, c04Authn{Type: "basic_auth", User: "alice", Pass: "se:cret"}, anon),
+		one("direct", bearer("noclaims", "active", "up"), jwtA, anon),
 	}
 }
 
@@ -1105,30 +1908,31 @@ func TestVerifC04(t *testing.T) {
 	w := vf.NewWriter()
 	defer w.Close()
 
+	if tr, ok := http.DefaultTransport.(*http.Transport); ok {
+		tr.ResponseHeaderTimeout = c04ResponseTimeout
+	}
+
 	env := c04NewEnv(t)
 	defer env.close()
 
-	conf := &config.Configuration{Prototypes: &config.MechanismPrototypes{Authenticators: env.prototypes()}}
-
-	mf, err := mechanisms.NewMechanismFactory(conf, zerolog.Nop(), nil, nil, nil)
-	if err != nil {
-		t.Fatal(err)
-	}
-
-	rf, err := NewRuleFactory(mf, conf, config.DecisionMode, zerolog.Nop())
-	if err != nil {
-		t.Fatal(err)
-	}
-
-	factory := rf.(*ruleFactory) //nolint:forcetypeassert
+	svc := c04NewServices()
+	defer svc.close()
 
 	root := vf.NewRand(vf.Seed())
 	n := vf.N(600)
 	idx := 0
 
-	emit := func(stream string, c c04Case, r *vf.Rand) {
+	emit := func(stream string, gen func() (c04Case, *vf.Rand)) {
 		if vf.Want(idx) {
-			o := env.run(factory, &c, r)
+			c, r := gen()
+			o := env.run(svc, &c, r)
+
+			for k := 1; k <= 3 && c04UnexpectedTimeout(&c, o); k++ {
+				c, r = gen()
+				o = env.run(svc, &c, r)
+				o.Reruns = k
+			}
+
 			w.Put(vf.Obs{
 				I: idx, Stream: stream, In: c, Out: o, Coq: c04Coq(c, o),
 				Nontrivial: c04Nontrivial(c, o), Tags: c04Tags(c, o), Key: c04Key(c),
@@ -1138,19 +1942,24 @@ func TestVerifC04(t *testing.T) {
 		idx++
 	}
 
-	for i, c := range c04Corpus() {
-		emit("corpus", c, root.Fork(uint64(1_000_000+i)))
+	for i := range c04Corpus() {
+		emit("corpus", func() (c04Case, *vf.Rand) { return c04Corpus()[i], root.Fork(uint64(1_000_000 + i)) })
 	}
 
 	for i := 0; i < n; i++ {
-		r := root.Fork(uint64(i))
-		emit("generated", c04Gen(r), r)
+		emit("generated", func() (c04Case, *vf.Rand) {
+			r := root.Fork(uint64(i))
+
+			return c04Gen(r), r
+		})
 	}
 }
 
 // the distinctness key ignores the serialized tokens (they contain time stamps and random ids)
 func c04Key(c c04Case) string {
 	cp := c
+	cp.Steps = append([]c04Req(nil), c.Steps...)
+
 	strip := func(t *c04Token) *c04Token {
 		if t == nil {
 			return nil
@@ -1161,7 +1970,11 @@ func c04Key(c c04Case) string {
 
 		return &x
 	}
-	cp.Req.AuthTok, cp.Req.QueryTok, cp.Req.BodyTok = strip(c.Req.AuthTok), strip(c.Req.QueryTok), strip(c.Req.BodyTok)
+
+	for i := range cp.Steps {
+		s := &cp.Steps[i]
+		s.AuthTok, s.XTok, s.QueryTok, s.BodyTok = strip(s.AuthTok), strip(s.XTok), strip(s.QueryTok), strip(s.BodyTok)
+	}
 
 	return vf.KeyOf(cp)
 }
